@@ -104,11 +104,25 @@ def main(argv=None):
     ev_path = os.path.join(OUT, "evidence", f"{prop}.json")
     try:
         repo = Repo()
+        from . import rules as _rules
+        _rules.ANALYSED.clear()
         ck = run_property(prop, repo, tier)
         extra = None
         if tier == "thorough":
-            from . import selfval
+            from . import selfval, mutate
+            analysed = dict(_rules.ANALYSED)
             extra = selfval.thorough(prop, repo, ck)
+            funcs = []
+            for q, mod in sorted(analysed.items()):
+                cands = [f for f in repo.funcs.get(q, []) if f.module == mod]
+                funcs += cands[:1]
+            ms = mutate.sweep(prop, repo, funcs)
+            extra.update({"mutation_" + k: v for k, v in ms.items()})
+            print(f"  mutation sweep of the checker: {ms['mutants']} single-site mutants of {len(ms['functions_mutated'])} analysed functions: "
+                  f"{ms['reported']} reported, {ms['unrecognised']} unrecognised (analysis-error), {ms['survived']} survived "
+                  f"({ms['survivors_triaged']} triaged as equivalent/out of scope, {len(ms['survivors_untriaged'])} untriaged)")
+            for u in ms["survivors_untriaged"][:400]:
+                print("MUTANT-SURVIVOR", prop, u)
     except AnalysisError as e:
         print(f"ANALYSIS-ERROR property={prop} {e}")
         return 2
